@@ -84,6 +84,10 @@ class Event:
                 raise InputStateError("Rate and equation defined, but only one should be provided")
             elif (n_eq==0) and (rate is None):
                 raise InputStateError("Rate cannot be found in Event or Transitions")
+            elif n_eq==1:
+                for transition in transition_list:
+                    if transition.equation is not None:
+                        self.rate=transition.equation
             else:
                 self.rate=rate
                 
